@@ -437,6 +437,10 @@ func (c *ClusterInfo) syncSecureServingConfigLocked(newSecureServing proxyv1alph
 			}
 			klog.Infof("[cluster info] cluster=%q update key and cert", c.Cluster)
 			newCfg.certs = []tls.Certificate{cert}
+		} else {
+			// half a pair cannot be served: do not keep serving the certificate of an earlier version
+			klog.Infof("[cluster info] cluster=%q cleanup key and cert, incomplete pair", c.Cluster)
+			newCfg.certs = nil
 		}
 	}
 
